@@ -35,6 +35,7 @@ use rssl::ir;
 
 mod decl;
 mod ext;
+mod ret;
 use rssl::ir::ScalarType;
 use rssl::typer::verif::ImplicitConversion;
 
@@ -2113,6 +2114,7 @@ pub fn run(args: &Args, out: &mut Out) {
                 },
                 ["C03.src", src] => r.src_case(src, out),
                 ["C03.decl", rest @ ..] => r.decl_case(rest, out),
+                ["C03.ret", prog] => r.ret_case(prog, out),
                 ["C03.progx", others, vars, funcs, ret, body, expect] => match (ext::parse_envx(others, vars, funcs, ret), parse_sx(body)) {
                     (Some(env), Some(body)) => r.progx_case(&env, &body, expect, out),
                     _ => out.case(&line, "-", "SKIP:bad request"),
@@ -2339,6 +2341,9 @@ pub fn run(args: &Args, out: &mut Out) {
 
     // (6) declared types: typedef chains / template parameters carrying modifiers x use-site modifiers x storage x writes
     decl::run_decl(&mut r, &mut rng, args.thorough(), if args.thorough() { 30000 } else { 3000 }, out);
+
+    // (7) return statements after template instantiations in the middle of a function body: the containing function decides
+    ret::run_ret(&mut r, &mut rng, args.thorough(), if args.thorough() { 12000 } else { 1500 }, out);
 
     out.stat(&format!(
         "{{\"conv_universe\":{},\"conv_pairs\":{},\"random_statements\":{},\"compiles\":{},\"ir_nodes_walked\":{},\"hist\":{}}}",
